@@ -35,6 +35,8 @@ type lifeRun struct {
 	done   map[int]bool
 	refuse map[int]bool
 	pend   map[int][]byte // bytes of a packet being dribbled
+	wantNext map[int]bool  // the next handler invocation on this connection registers a continuation
+	sess   map[int][2]uint32 // open exchange of a connection: session id, next client sequence number
 	nsid   uint32
 	served chan struct{}
 	ret    bool
@@ -63,7 +65,16 @@ func (r *lifeRun) handle(c int, resp tq.Response, req tq.Request) {
 	<-g
 	r.mu.Lock()
 	r.hwait[c] = false
+	next := r.wantNext[c]
+	r.wantNext[c] = false
 	r.mu.Unlock()
+	if next {
+		// the exchange goes on: the session waits for another packet
+		resp.Next(tq.HandlerFunc(func(resp2 tq.Response, req2 tq.Request) { r.handle(c, resp2, req2) }))
+		resp.Reply(tq.NewAuthenReply(tq.SetAuthenReplyStatus(tq.AuthenStatusGetUser), tq.SetAuthenReplyServerMsg("more")))
+		r.rec.Emit(E{"e": "hend", "c": c})
+		return
+	}
 	resp.Reply(tq.NewAuthenReply(tq.SetAuthenReplyStatus(tq.AuthenStatusFail), tq.SetAuthenReplyServerMsg("no")))
 	r.rec.Emit(E{"e": "hend", "c": c})
 }
@@ -157,11 +168,22 @@ func (c *FakeConn) accepted() bool {
 }
 
 func (r *lifeRun) packet(c int) []byte {
-	r.nsid++
 	body := defaultBody(1)
 	n := len(body)
-	sid := 0x51000000 + r.nsid
-	return append([]byte{0xc0, 1, 1, 1, byte(sid >> 24), byte(sid >> 16), byte(sid >> 8), byte(sid), 0, 0, byte(n >> 8), byte(n)}, body...)
+	r.mu.Lock()
+	se, open := r.sess[c]
+	if !open {
+		r.nsid++
+		se = [2]uint32{0x51000000 + r.nsid, 1}
+	}
+	sid, seq := se[0], se[1]
+	if r.wantNext[c] {
+		r.sess[c] = [2]uint32{sid, seq + 2} // the handler will register a continuation: the next packet continues the exchange
+	} else {
+		delete(r.sess, c)
+	}
+	r.mu.Unlock()
+	return append([]byte{0xc0, 1, byte(seq), 1, byte(sid >> 24), byte(sid >> 16), byte(sid >> 8), byte(sid), 0, 0, byte(n >> 8), byte(n)}, body...)
 }
 
 func (r *lifeRun) run(sc *LScen) {
@@ -171,6 +193,7 @@ func (r *lifeRun) run(sc *LScen) {
 	r.lis.clk = r.clk
 	r.clk.lis = []*FakeListener{r.lis}
 	r.conns, r.hgate, r.hwait, r.done, r.refuse, r.pend = map[int]*FakeConn{}, map[int]chan struct{}{}, map[int]bool{}, map[int]bool{}, map[int]bool{}, map[int][]byte{}
+	r.wantNext, r.sess = map[int]bool{}, map[int][2]uint32{}
 	for _, c := range sc.Refuse {
 		r.refuse[c] = true
 	}
@@ -209,8 +232,15 @@ func (r *lifeRun) run(sc *LScen) {
 					close(fc.RaddrGate)
 				}
 			}
-		case "packet":
+		case "lclose":
+			r.lis.Close()
+		case "packet", "packetc":
 			if fc != nil {
+				if op == "packetc" {
+					r.mu.Lock()
+					r.wantNext[c] = true
+					r.mu.Unlock()
+				}
 				b := append(r.pend[c], r.packet(c)...)
 				if len(r.pend[c]) > 0 {
 					// finish the packet that was being dribbled
